@@ -80,8 +80,9 @@ func (ex *Exec) keyField(st types.Type, field int) *HeapKey {
 	return ex.regKey(name, smt.ArraySort(smt.Int, ex.W.SortOf(s.Field(field).Type())), s.Field(field).Type())
 }
 func (ex *Exec) keyElem(elem types.Type) *HeapKey {
+	// keyed by the Go element type: slices of different element types never share a backing array
 	es := ex.W.SortOf(elem)
-	name := "E:" + string(es)
+	name := "E:" + elemTypeKey(elem)
 	return ex.regKey(name, smt.ArraySort(smt.Int, smt.ArraySort(smt.Int, es)), elem)
 }
 func (ex *Exec) keyPtr(t types.Type) *HeapKey {
@@ -361,4 +362,21 @@ func (ex *Exec) mergeStates(conds []*smt.Term, sts []*State) *State {
 	}
 	out.brk = brk
 	return out
+}
+
+func elemTypeKey(t types.Type) string {
+	switch u := t.(type) {
+	case *types.Named:
+		return typeKey(t)
+	case *types.Slice:
+		return "[]" + elemTypeKey(u.Elem())
+	case *types.Pointer:
+		return "*" + elemTypeKey(u.Elem())
+	case *types.Array:
+		return fmt.Sprintf("[%d]%s", u.Len(), elemTypeKey(u.Elem()))
+	case *types.Basic:
+		// byte/uint8 and rune/int32 are identical types
+		return u.Name()
+	}
+	return typeKey(t)
 }
